@@ -138,6 +138,9 @@ def case_cohort(run, i):
     corrected = kind == "sex-mix" and (i // len(KINDS)) % 2 == 1
     with_fasta = corrected and rng.random() < 0.5
     want_given = rng.random() < 0.35
+    cli_case = i % 5 == 2
+    if cli_case and (i // 5) % 2 == 0:
+        want_given = True          # the sub-command's -x spellings are exercised on given-sex cohorts of both sexes
     tb, ab, lengths = gen_bins(rng, kind, with_fasta, inferred=not want_given)
     nsamp = int(rng.integers(1, 9))
     if kind in ("depth-only", "sex-mix"):
@@ -148,6 +151,8 @@ def case_cohort(run, i):
     given = (not has_sex) or want_given
     if given:
         sex_all = bool(rng.integers(0, 2))
+        if cli_case and (i // 5) % 2 == 0:
+            sex_all = bool((i // 10) % 2)
         is_xx = [sex_all] * nsamp
     else:
         is_xx = [bool(x) for x in rng.integers(0, 2, nsamp)]
@@ -242,7 +247,7 @@ def case_cohort(run, i):
         out = os.path.join(d, "ref.cnn")
         # every other time the cohort is named by its directory (the sub-command then collects *targetcoverage.cnn itself)
         by_dir = (i // 5) % 2 == 1 and anti_mode != "none"
-        argv = ["reference"] + ([d] if by_dir else tfiles + afiles) + ["-o", out] + (["-y"] if male_ref else []) + (["-x", cli_plumb.sex_arg(sex_all, i)] if given else []) \
+        argv = ["reference"] + ([d] if by_dir else tfiles + afiles) + ["-o", out] + (["-y"] if male_ref else []) + (["-x", cli_plumb.sex_arg(sex_all, i // 20)] if given else []) \
             + (["-f", fa] if fa else []) + ([] if opts["do_gc"] else ["--no-gc"]) + ([] if opts["do_edge"] else ["--no-edge"]) + ([] if opts["do_rmask"] else ["--no-rmask"])
         r = cli_plumb.check_cli(run, rt, R, "do_reference", argv,
                                 dict(fa_fname=fa, is_haploid_x_reference=male_ref, female_samples=(sex_all if given else None), do_gc=opts["do_gc"], do_edge=opts["do_edge"],
